@@ -750,3 +750,24 @@ Check exprloc_attr_size_write : forall dbg cx pos v ops fx, gav_write dbg cx pos
   ops_len ops < 2 ^ 64 -> gav_size dbg (wc_enc cx) (wc_be cx) (wc_lpv cx) (cx_uo cx) v = Ok (ops_len ops).
 Check glue_ref_is_mark : forall dbg cx en p, nth_error (wc_entries cx) (N.to_nat en) = Some p -> p <> 0 ->
   wc_unit_off cx <= p -> OpWr.entry_offset dbg (Some (cx_uo cx)) en = Ok (p - wc_unit_off cx).
+
+(* (g6) end to end, for the unit body written by the composed passes: the operand a typed operation / call /
+   parameter_ref naming entry `en` embeds — `entry_offset` under the table the expressions were written with, which is
+   what exprloc_attr_roundtrip's normal_form says the C07 decoder reads back — is the position at which write emitted
+   the DIE of `en` (its WMark, = calculate_offsets' offset by offsets_exact) minus the unit's offset. *)
+Theorem glue_ref_operand : forall (dbg : bool) (cx : wcx) (g : gdie) (st0 st : cst) (ops : list wop) (fx : list fixup),
+  gcalc dbg (wc_enc cx) (wc_be cx) (wc_lpv cx) (wc_unit_off cx) g st0 = Ok st ->
+  wc_entries cx = cs_entries st -> wc_codes cx = cs_codes st ->
+  gwrite_die dbg cx g (cs_off st0) = Ok (ops, fx) ->
+  NoDup (gdie_ids g) -> gdie_ok g ->
+  (forall j y, nth_error (cs_entries st0) j = Some y -> y = 0) ->
+  cs_off st0 + ops_len ops < 2 ^ 64 ->
+  0 < cs_off st0 -> wc_unit_off cx <= cs_off st0 ->
+  forall en p, In (N.to_nat en, p) (ops_marks (cs_off st0) ops) ->
+    OpWr.entry_offset dbg (Some (cx_uo cx)) en = Ok (p - wc_unit_off cx).
+Proof. exact glue_ref_operand_lemma. Qed.
+
+(* in the example unit: deref_type names entry 1 (DIE at 20), call names entry 3 (DIE at 47); unit offset 0 *)
+Example glue_ref_operand_ex :
+  OpWr.entry_offset true (Some (cx_uo gx_cx)) 1 = Ok 20 /\ OpWr.entry_offset true (Some (cx_uo gx_cx)) 3 = Ok 47.
+Proof. vm_compute. split; reflexivity. Qed.
